@@ -173,8 +173,8 @@ func (r *run) monitor(events []string, st *scheduler.VerifState, dump string) {
 			if os.Getenv("SCHED_DEBUG") != "" {
 				fmt.Fprintf(os.Stderr, "DBG sync ev=%q now=%d released=%v just=%v delayed=%v\n", ev, r.w.clk.now, r.released, r.justReleased, r.w.delayed)
 			}
-			if d, ok := r.justReleased[kv["w"]]; ok {
-				newRet[kv["w"]] = d.at // the scheduler saw the time this call had read
+			if t, ok := r.w.clk.takeReadAt(kv["w"]); ok {
+				newRet[kv["w"]] = t // the scheduler saw the time this call had read before it was suspended
 			}
 			if len(f) > 2 && f[2] == "exec" {
 				wk := kv["w"]
